@@ -177,11 +177,37 @@ theorem filter_chgP (s : State) (hc : Coherent s) (ns name : String) (nodes : Li
         rw [(filterNodes_quiet set nodes [] (getSubnet s pod ch).1).1.alloc] at hne
         exact key hne
 
+theorem preempt_chgP (s : State) (hc : Coherent s) (ns name : String) (nodes : List String) (ch : Choice) :
+    ∀ ip r, Tbl.get s.alloc ip = some r → Tbl.get (Plugin.preempt s ns name nodes ch).1.alloc ip ≠ some r → r.key.pod = "" := by
+  intro ip r hr hne
+  unfold Plugin.preempt at hne
+  split at hne
+  · exact absurd hr hne
+  · rename_i pod _
+    split at hne
+    · exact absurd hr hne
+    · have key : Tbl.get (getSubnet s pod ch).1.alloc ip ≠ some r → r.key.pod = "" := by
+        intro hne'
+        rcases getSubnet_state s pod ch with e | ⟨resv, n, e⟩
+        · rw [e] at hne'; exact absurd hr hne'
+        · rw [e] at hne'
+          rcases (allocateDuringFilter_chg s (keyOf pod) resv n _ ch.pick hc).recs ip with e' | ⟨ho, _⟩
+          · rw [e'] at hne'; exact absurd hr hne'
+          · rcases ho with ho | ⟨r0, hr0, hk0⟩
+            · rw [hr] at ho; cases ho
+            · rw [hr] at hr0; cases hr0; rw [hk0]; exact poolPrefix_pod _
+      split at hne
+      · exact absurd hr hne
+      · exact key hne
+      · rename_i set _
+        rw [(filterNodes_quiet set nodes [] (getSubnet s pod ch).1).1.alloc] at hne
+        exact key hne
+
 theorem filter_plog' (s : State) (ns name : String) (nodes : List String) (ch : Choice) :
     (Plugin.filter s ns name nodes ch).1.plog = s.plog := filter_plog s ns name nodes ch
 
 /-- Bind changes no key: it allocates free addresses and updates records of its own key in place -/
-theorem bind_keys (s : State) (hc : Coherent s) (ns name : String) (uid : Nat) (node : String) (ch : Choice) :
+theorem bind_keys (s : State) (hc : Coherent s) (hcm : s.crashMode = false) (ns name : String) (uid : Nat) (node : String) (ch : Choice) :
     ∀ ip r r', Tbl.get s.alloc ip = some r → Tbl.get (Plugin.bind Facts.good s ns name uid node ch).1.alloc ip = some r' →
       r'.key = r.key := by
   intro ip r r' hr hr'
@@ -221,7 +247,7 @@ theorem bind_keys (s : State) (hc : Coherent s) (ns name : String) (uid : Nat) (
                 (infos.filterMap id) (ba.2.2.filterMap id)).1.alloc ip = some r'' → r''.key = r.key := by
               intro r'' hr''
               have lspec := bindLoop_spec (keyOf pod) node { policy := policyOf pod, node := node, uid := pod.uid }
-                (infos.filterMap id) (ba.2.2.filterMap id) ba.1 spec.coherent
+                (infos.filterMap id) (ba.2.2.filterMap id) ba.1 (spec.coherent (Or.inl hcm))
               rcases lspec.2.1.recs ip with e | ⟨⟨r0, hr0, hk0⟩, ⟨r1, hr1, hk1, _⟩⟩
               · rw [e, hb] at hr''; cases hr''; rfl
               · rw [hb] at hr0; cases hr0
@@ -231,8 +257,12 @@ theorem bind_keys (s : State) (hc : Coherent s) (ns name : String) (uid : Nat) (
             · exact same hr'
             · rw [hb] at hr'; cases hr'; rfl
             · split at hr'
-              · rw [(bindCommit_eff _ pod ns name uid node _).1] at hr'
-                exact loop r' hr'
+              · rcases bindCommitX_cases (bindLoop ba.1 (keyOf pod) node { policy := policyOf pod, node := node, uid := pod.uid }
+                    (infos.filterMap id) (ba.2.2.filterMap id)).1 pod ns name uid node (ba.2.2.filterMap id) with e | e
+                · rw [e] at hr'
+                  exact loop r' (by rw [← (api_quiet _).alloc]; exact hr')
+                · rw [e, (bindCommit_eff _ pod ns name uid node _).1] at hr'
+                  exact loop r' hr'
               · exact loop r' hr'
 
 /-- "an IP is unassigned before it is freed or handed to a different owner", for one move -/
@@ -286,7 +316,7 @@ theorem freed_or_rekeyed_step (s : State) (m : Move) (h : Inv10 s) (ha : assumed
       rw [hpl]; exact hun
     | bind ns name uid node ch fault pfault =>
       have hc0 : Coherent (withFaults s fault pfault) := coherent_of_eq h.core.coh rfl rfl rfl rfl
-      exact absurd (bind_keys (withFaults s fault pfault) hc0 ns name uid node ch ip r r' hr hr') hk
+      exact absurd (bind_keys (withFaults s fault pfault) hc0 rfl ns name uid node ch ip r r' hr hr') hk
     | deliver i fault pfault =>
       exact cleared ((RChg.of_alloc_eq (s' := withFaults s fault pfault) rfl).trans (deliver_chgA _ _ i))
     | resync order fault pfault =>
@@ -309,7 +339,57 @@ theorem freed_or_rekeyed_step (s : State) (m : Move) (h : Inv10 s) (ha : assumed
       dsimp only [step]
       split
       · exact RChg.refl s
-      · exact ((RChg.of_alloc_eq (s' := withFaults s fault pfault) rfl).trans (resyncOne_chgA _ _ ip' _)).trans
-          (RChg.of_alloc_eq rfl)
+      · split
+        · exact RChg.refl s
+        · exact ((RChg.of_alloc_eq (s' := withFaults s fault pfault) rfl).trans (resyncOne_chgA _ _ ip' _)).trans
+            (RChg.of_alloc_eq rfl)
+    | preempt ns name nodes ch fault =>
+      have hc0 : Coherent (withFaults s fault 0) := coherent_of_eq h.core.coh rfl rfl rfl rfl
+      have hp := preempt_chgP (withFaults s fault 0) hc0 ns name nodes ch ip r hr
+        (fun e => by
+          have : Tbl.get (step Facts.good s (.preempt ns name nodes ch fault)).1.alloc ip = some r := e
+          rw [this] at hr'; cases hr'; exact hk rfl)
+      have hnode := (h.core.j ip).2 r hr (Or.inl hp)
+      have hun := (h.core.j ip).unassigned_of_node r hr hnode
+      have hpl : (step Facts.good s (.preempt ns name nodes ch fault)).1.plog = s.plog :=
+        preempt_plog (withFaults s fault 0) ns name nodes ch
+      unfold prov at hun ⊢
+      rw [hpl]; exact hun
+    | adminReserve ip' text policy =>
+      exfalso; apply same
+      dsimp only [step]
+      split
+      · rfl
+      · split
+        · rfl
+        · rename_i _ hfree
+          have hin : ip' ∈ s.free := by simpa using hfree
+          have hnone : Tbl.get s.alloc ip' = none := h.core.coh.disjoint ip' hin
+          show Tbl.get (Tbl.set s.alloc ip' _) ip = _
+          rw [Tbl.get_set]
+          by_cases hij : ip' = ip
+          · rw [hij, hr] at hnone; cases hnone
+          · rw [if_neg hij]
+    | adminUnreserve ip' =>
+      exfalso; apply same
+      dsimp only [step]
+      split
+      · rfl
+      · split
+        · rfl
+        · show Tbl.get (Tbl.erase s.alloc ip') ip = _
+          rw [Tbl.get_erase]
+          by_cases hij : ip' = ip
+          · exfalso
+            have : Tbl.get (step Facts.good s (.adminUnreserve ip')).1.alloc ip = none := by
+              dsimp only [step]
+              rename_i r0 hr0 hres
+              rw [hr0]
+              dsimp only
+              rw [if_neg hres]
+              show Tbl.get (Tbl.erase s.alloc ip') ip = none
+              rw [Tbl.get_erase, if_pos hij]
+            rw [this] at hr'; cases hr'
+          · rw [if_neg hij]
 
 end Galaxy.PluginC10
